@@ -188,6 +188,7 @@ def parseCfgField (c : Cfg) (kv : String) : Option Cfg :=
   | ["kind", "sketch"] => some { c with kind := .sketch }
   | ["kind", "deque"] => some { c with kind := .deque }
   | ["kind", "concs"] => some { c with kind := .concs }
+  | ["kind", "inject"] => some { c with kind := .concs }    -- traces of the inject component are judged like concs traces
   | ["cap", v] => (parseOptNat v).map fun x => { c with cap := x }
   | ["w", v] => (parseWeigher v).map fun x => { c with weigher := x }
   | ["ttl", v] => (parseOptNat v).map fun x => { c with ttl := x }
